@@ -1,6 +1,6 @@
 /-
 Driver for C10: every `bad` case (a single-fault mutation of a valid request)
-is replayed through the model as the code stands (`agree`: status and echo),
+is replayed through the model of the code (`agree`: status and echo),
 and the property is evaluated on the implementation's answer (`spec`):
 
 * the model, reading JSON by RFC 8259 (`decodeStrict`), says whether the
@@ -10,9 +10,9 @@ and the property is evaluated on the implementation's answer (`spec`):
 * still valid (the mutation was harmless) ⇒ 200, exactly one handler entry,
   follow-up answered.
 
-`known=K10a` marks exactly the inputs whose JSON body is a complete well-typed
-value followed by non-whitespace bytes (`JsonBody.trailingGarbage`): the code
-never calls `Deserializer::end()`, accepts them and runs the handler.
+The inputs of the repaired finding K10a (a complete well-typed JSON value
+followed by non-whitespace bytes) stay in the stream as ordinary must-pass
+cases, class `bad-<ep>-json-trailing`.
   <id> agree=<0|1> spec=<0|1|na> class=<label> known=<K..|-> model=<…>
 -/
 import Driver.ExtractCommon
@@ -83,11 +83,11 @@ def handleBad (inp impl : List String) : String :=
         let (specOk, cls) := match vSpec with
           | .refused _ =>
             (is4xx && l.delta == "0" && l.errBody == "1" && l.followup == "1",
-              s!"bad-{l.ep}-{refusalClass l e payload}")
+              if jsonTrailing l e payload then s!"bad-{l.ep}-json-trailing"
+              else s!"bad-{l.ep}-{refusalClass l e payload}")
           | _ =>
             (l.status == 200 && l.delta == "1" && l.followup == "1", s!"still-valid-{l.ep}")
-        let known := if !specOk && jsonTrailing l e payload then "K10a" else "-"
-        out l.id agree (b2s specOk) cls known (verdictStr vAsIs)
+        out l.id agree (b2s specOk) cls "-" (verdictStr vAsIs)
 
 def handle (line : String) : String :=
   let fs := fields line
